@@ -205,9 +205,40 @@ pub fn run(cfg: &Cfg, rep: &mut Report) {
                             bw.push(st);
                         }
                     }
+                    // then drive both to Done (the seeded schedule decides which goes first)
+                    let mut guard = 0;
+                    let forward_first = choices[0];
+                    while !(fd && bd) && guard < MAX_STEPS {
+                        guard += 1;
+                        if (forward_first || bd) && !fd {
+                            let st = s.next();
+                            fd = matches!(st, SearchStep::Done);
+                            fw.push(st);
+                        } else if !bd {
+                            let st = s.next_back();
+                            bd = matches!(st, SearchStep::Done);
+                            bw.push(st);
+                        }
+                    }
                     (fw, bw)
                 });
                 if let Guarded::Ok((fw, bw)) = r {
+                    // Once both directions have reported Done, either each stream alone covers the
+                    // haystack (independent cursors, as implemented) or the two streams meet exactly
+                    // (a double-ended searcher); Done with text visited by neither stream's own
+                    // contiguous tiling, or with overlapping partial streams, is a contract breach.
+                    let f_end = fw.iter().filter_map(span).map(|x| x.1).last().unwrap_or(0);
+                    let b_start = bw.iter().filter_map(span).map(|x| x.0).last().unwrap_or(hay.len());
+                    let both_done = matches!(fw.last(), Some(SearchStep::Done)) && matches!(bw.last(), Some(SearchStep::Done));
+                    if both_done && !((f_end == hay.len() && b_start == 0) || f_end == b_start) {
+                        rep.violation(violation(
+                            "C20",
+                            "interleaved next()/next_back(): both directions reported Done but their steps neither each cover the haystack nor meet exactly",
+                            case().set("direction", "interleaved"),
+                            format!("forward: {} (covers 0..{}) | backward: {} (covers {}..{})", show(&fw), f_end, show(&bw), b_start, hay.len()),
+                            "each stream tiles [0, len], or the two streams meet".into(),
+                        ));
+                    }
                     rep.inc("interleavings");
                     rep.eval(fnv64(format!("mix|{}|{}|{:?}", ri, hay, choices).as_bytes()), !expected.is_empty());
                     let e1 = check_tiling(hay, &fw, true, false);
